@@ -160,6 +160,29 @@ func inferType(operand string) string {
 	return ""
 }
 
+// returns whether the given migrated expression is an operator expression rather than a single term
+func isOperatorExpression(expression string) bool {
+	parsed, err := excellent.Parse(expression, nil)
+	if err != nil {
+		return false
+	}
+
+	switch parsed.(type) {
+	case *excellent.Concatenation, *excellent.Addition, *excellent.Subtraction, *excellent.Multiplication, *excellent.Division, *excellent.Exponent,
+		*excellent.Equality, *excellent.InEquality, *excellent.LessThan, *excellent.LessThanOrEqual, *excellent.GreaterThan, *excellent.GreaterThanOrEqual:
+		return true
+	}
+	return false
+}
+
+// wraps the given migrated expression in parentheses if it needs them to keep its grouping as an operand of another operator
+func asOperand(expression string) string {
+	if isOperatorExpression(expression) {
+		return fmt.Sprintf("(%s)", expression)
+	}
+	return expression
+}
+
 var identifierRegex = regexp.MustCompile(`^\pL+[\pL\pN_.]*$`)
 
 func isValidIdentifier(expression string) bool {
